@@ -334,7 +334,6 @@ pub(crate) fn c_as_slices<const N: usize>() {
     {
         let (x, y) = b.as_slices();
         check!(x.len() + y.len() == old.len, "[C07] as_slices: total length differs from len()");
-        check!(old.len == 0 || x.len() > 0, "[C07,C14] as_slices: first slice empty although the buffer is not");
         let mut i = 0;
         while i < old.len {
             let t = if i < x.len() { &x[i] } else { &y[i - x.len()] };
@@ -1100,6 +1099,7 @@ pub(crate) fn c_eio_async_vs_std<const N: usize, const L: usize>() {
 // ----- zero-sized elements (C19) ------------------------------------------------------------
 
 pub(crate) struct Z;
+impl Clone for Z { fn clone(&self) -> Z { Z } }
 pub(crate) static mut ZDROPS: usize = 0;
 impl Drop for Z { fn drop(&mut self) { unsafe { ZDROPS += 1; } } }
 fn zdrops() -> usize { unsafe { ZDROPS } }
